@@ -125,11 +125,15 @@ fn enc_check(i: usize, fin: bool, op: u64, len: usize, peer_is_client: bool, out
         }
         _ => return,
     };
-    let mut dst = BytesMut::new();
+    // the output buffer may still hold earlier, unflushed frames: the new frame must come out the same after them
+    let prefix: &[u8] = if (i + len) % 3 == 0 { b"" } else if (i + len) % 3 == 1 { b"\x81\x03abc" } else { b"\x82\x7e\x00\x80................................................................................................................................" };
+    let mut dst = BytesMut::from(prefix);
     let r = codec.encode(msg, &mut dst);
     let ok = r.is_ok()
-        && match read_frame(&dst) {
-            Some((f, o, m, p, used)) => f == fin && o as u64 == op && m == peer_is_client && p == pl && used == dst.len(),
+        && dst.len() >= prefix.len()
+        && &dst[..prefix.len()] == prefix
+        && match read_frame(&dst[prefix.len()..]) {
+            Some((f, o, m, p, used)) => f == fin && o as u64 == op && m == peer_is_client && p == pl && used == dst.len() - prefix.len(),
             None => false,
         };
     out.emit(json!({"ev":"Enc","ok":ok,"op":op,"fin":fin,"len":len}));
